@@ -378,6 +378,29 @@ fn pair_histories(ctx: &Ctx, acc: &mut Acc, l: L, nwords: usize) {
         }
     }
     acc.count("pair_history_phrases", phrases.len() as u64);
+    // (a2) chains: the same calls twelve times in a row on one interpreter (and one thread), then every phrase once —
+    // state that leaks a little per call (a counter never decremented, a pool that fills up) shows after a while
+    for (i, p) in phrases.iter().enumerate() {
+        let lang = l.facade();
+        for _ in 0..12 {
+            acc.transitions += 1;
+            let got = obs(&lang, p);
+            if got != expected[i] {
+                ctx.report(acc, Violation { lang: l.code().into(), entry: "history".into(), input: format!("calls on {p:?} repeated (same interpreter)"), threshold: None, clause: "result(c | the same call made before) = result(c | fresh interpreter)".into(), expected: expected[i].clone(), observed: got });
+                break;
+            }
+        }
+        acc.states += 1;
+        acc.traces += 1;
+        // afterwards a few other phrases (the compound ones last in the list) still get their fresh answers
+        for (j, q) in phrases.iter().enumerate().rev().take(12) {
+            let second = obs(&lang, q);
+            if second != expected[j] {
+                ctx.report(acc, Violation { lang: l.code().into(), entry: "history".into(), input: format!("calls on {p:?} twelve times; then calls on {q:?} (same interpreter)"), threshold: None, clause: "result(c | twelve earlier calls) = result(c | fresh interpreter)".into(), expected: expected[j].clone(), observed: second });
+                break;
+            }
+        }
+    }
     // (b) first call = ONE word from a wider alphabet (every vocabulary word that is a number below 20 on its
     // own — all the spelling aliases of the small numbers — plus the words above), second call = a phrase
     let mut wide: Vec<String> = alpha.clone();
